@@ -78,7 +78,8 @@ PROPS = {
         trusted=["Go runtime below the modelled slicing semantics"],
     ),
     "C16": dict(
-        lean_modules=["Liftbridge.Props.C16", "Liftbridge.Props.C16Seq"],
+        # Props.GoMessageSet: the model's batch check + stamp (offsets, concurrency-control decision) = the translated body of newMessageSetFromProto
+        lean_modules=["Liftbridge.Props.C16", "Liftbridge.Props.C16Seq", "Liftbridge.Props.GoMessageSet"],
         gen_sources=LOG_SOURCES + ["server/partition.go:partition.messageProcessingLoop", "server/api.go:apiServer.ensurePublishPreconditions"],
         runs=[dict(go_pkg="./server/commitlog", test="TestVerifC16"), dict(go_pkg="./server", test="TestVerifC16Server"), dict(go_pkg="./server", test="TestVerifC16Restore"), dict(go_pkg="./server", test="TestVerifC16Subjects")],
         level="proof",
